@@ -72,6 +72,15 @@ Theorem C13_source_order :
    sorted_entries_order = "sorting.SortByEntryHash, entries, false")%string.
 Proof. exact (conj listings_read_the_log_order (proj1 (proj2 index_reads_the_log_order))). Qed.
 
+(* log order is causal order: an entry with a smaller Lamport clock is listed first; the clock of an
+   entry exceeds that of every entry it follows (go-ipfs-log), so ancestors come before descendants *)
+Theorem C13_log_order_is_causal :
+  forall es i j a b,
+    nth_error (sort_entries es) i = Some a -> nth_error (sort_entries es) j = Some b ->
+    (e_clock a < e_clock b)%N -> i < j.
+Proof. exact listing_respects_causality. Qed.
+
+Print Assumptions C13_log_order_is_causal.
 Print Assumptions C13_source_order.
 Print Assumptions C13_range_exact.
 Print Assumptions C13_range_single.
